@@ -317,3 +317,27 @@ func kUnpack(c J) interface{} {
 	}
 	return J{"ok": canonGoVal(target.Elem())}
 }
+
+func init() { kinds["roundtrip"] = kRoundtrip }
+
+// roundtrip: {"ty": struct type, "val": goval, "opts": [...]} -> NewFrom(value) then Unpack into a zero value
+func kRoundtrip(c J) interface{} {
+	t := buildType(c["ty"])
+	src := reflect.New(t)
+	setValue(src.Elem(), c["val"])
+	opts := buildOpts(c["opts"])
+	var in interface{} = src.Elem().Interface()
+	if boolD(c, "byPtr", false) {
+		in = src.Interface()
+	}
+	cfg, err := ucfg.NewFrom(in, opts...)
+	if err != nil {
+		return J{"err": J{"reason": canonErr(err).(J)["err"].(J)["reason"], "stage": "newfrom"}}
+	}
+	target := reflect.New(t)
+	if err := cfg.Unpack(target.Interface(), opts...); err != nil {
+		ce := canonErr(err).(J)["err"].(J)
+		return J{"err": J{"reason": ce["reason"], "text": ce["text"], "stage": "unpack"}}
+	}
+	return J{"ok": canonGoVal(target.Elem())}
+}
